@@ -123,6 +123,11 @@ func (app *App) nextCustom(c CustomCtx) (bool, error) { //nolint:unparam // bool
 		// Get *Route
 		route := tree[c.getIndexRoute()]
 
+		// skip for mounted apps
+		if route.mount {
+			continue
+		}
+
 		// Check if it matches the request path
 		match := route.match(c.getDetectionPath(), c.Path(), c.getValues())
 
@@ -140,7 +145,10 @@ func (app *App) nextCustom(c CustomCtx) (bool, error) { //nolint:unparam // bool
 
 		// Execute first handler of route
 		c.setIndexHandler(0)
-		err := route.Handlers[0](c)
+		var err error
+		if len(route.Handlers) > 0 {
+			err = route.Handlers[0](c)
+		}
 		return match, err // Stop scanning the stack
 	}
 
@@ -251,7 +259,7 @@ func (app *App) customRequestHandler(rctx *fasthttp.RequestCtx) {
 	defer app.ReleaseCtx(ctx)
 
 	// Check if the HTTP method is valid
-	if app.methodInt(ctx.Method()) == -1 {
+	if ctx.getMethodInt() == -1 {
 		_ = ctx.SendStatus(StatusNotImplemented) //nolint:errcheck // Always return nil
 		return
 	}
